@@ -822,14 +822,21 @@ fn to_usize_z(z: &Z) -> Option<usize> {
 }
 
 pub fn assemble(prog: &Prog) -> RefOut {
-    match assemble_inner(prog) {
+    assemble_with(prog, None)
+}
+
+/// `claimed`: sizes (bits) of the instruction items, in program order, as some assembler run
+/// claims them. Then nothing is predicted: the layout is derived from those sizes and every
+/// instruction must re-select exactly that size as its unique smallest encoding (DESIGN §3.5).
+pub fn assemble_with(prog: &Prog, claimed: Option<&[usize]>) -> RefOut {
+    match assemble_inner(prog, claimed) {
         Ok(ok) => RefOut::Ok(ok),
         Err(Stop::Error(s)) => RefOut::Error(s),
         Err(Stop::Unspec(s)) => RefOut::Unspec(s),
     }
 }
 
-fn assemble_inner(prog: &Prog) -> R<RefOk> {
+fn assemble_inner(prog: &Prog, claimed: Option<&[usize]>) -> R<RefOk> {
     // rules
     let mut defs = vec![];
     for d in &prog.ruledefs {
@@ -929,6 +936,7 @@ fn assemble_inner(prog: &Prog) -> R<RefOk> {
 
     let mut placements: Vec<Placement> = vec![];
     let mut cur = 0usize;
+    let mut n_instr = 0usize;
     let mut item_pos: HashMap<usize, (usize, usize)> = HashMap::new(); // item -> (bank, pos) at item start
     let mut label_pos: Vec<(usize, usize, usize)> = vec![]; // (sym, bank, pos)
     let mut next_bankdef = 1usize;
@@ -967,7 +975,14 @@ fn assemble_inner(prog: &Prog) -> R<RefOk> {
             }
             Item::Instr(_) => {
                 let m = line_matches.get(&idx).unwrap().clone();
-                let size = a.static_size(&m, &ctx)?;
+                let size = match claimed {
+                    Some(c) => match c.get(n_instr) {
+                        Some(s) => *s,
+                        None => return unspec("claimed sizes do not cover every instruction"),
+                    },
+                    None => a.static_size(&m, &ctx)?,
+                };
+                n_instr += 1;
                 item_pos.insert(idx, (cur, banks[cur].cursor));
                 placements.push(Placement { item: idx, sub: 0, bank: cur, pos: banks[cur].cursor, size, written: true });
                 banks[cur].cursor += size;
@@ -1092,6 +1107,9 @@ fn assemble_inner(prog: &Prog) -> R<RefOk> {
                 let (mi, z, s) = a.choose(&m, &ctx, Some(&h))?;
                 let pl = placements.iter().find(|p| p.item == idx).unwrap();
                 if pl.size != s {
+                    if claimed.is_some() {
+                        return err("claimed encoding is not the unique smallest one at the claimed symbol values");
+                    }
                     return unspec("instruction size differs from its static size");
                 }
                 chosen.push((idx, m[mi].def, m[mi].rule));
